@@ -288,6 +288,31 @@ def twin_sheets(run):
         run.traces_validated += 1
 
 
+def whole_column_lookups(run):
+    """Lookups over WHOLE columns after set_cells has appended rows below the rows stored in the workbook: the whole column is every row
+    the sheet has when the formula is evaluated. The observed rows are judged by Trace_C14 against the extended key column."""
+    stored = [10, 20, 30]
+    forms = ['=VLOOKUP(E1,A:C,2,FALSE)', '=VLOOKUP(E1,A:C,2,TRUE)', '=MATCH(E1,A:A,0)', '=MATCH(E1,A:A,1)', '=XMATCH(E1,A:A,0,-1)', '=INDEX(B:B,MATCH(E1,A:A,0))', '=XMATCH(E1,A:A)']
+    kinds = ['VEXACT', 'VAPPROX', 'EXACT', 'APPROX', 'LAST', 'PARTNER', 'EXACT']
+    consts = {}
+    for i, k in enumerate(stored):
+        consts[(0, i)], consts[(1, i)], consts[(2, i)] = k, 100 * (i + 1) + 2, 100 * (i + 1) + 3
+    p = repo.Probe(forms, consts)
+    evs = []
+    for appended in ([], [40], [40, 50], [40, 40, 60]):
+        keys = stored + appended
+        ses = p.session()
+        ov = []
+        for i, k in enumerate(appended):
+            r0 = len(stored) + i
+            ov += [(0, 0, r0, k), (0, 1, r0, 100 * (r0 + 1) + 2), (0, 2, r0, 100 * (r0 + 1) + 3)]
+        for v in (10, 30, 40, 45, 50, 60, 65, 5):
+            res = ses.eval(ov + [(0, 4, 0, v)])
+            for f, r, form in zip(kinds, res, forms):
+                evs.append({'f': f, 'keys': keys, 'v': v, 'o': code(*r), 'raw': show(*r), 'formula': f'{form} with E1={v}, rows appended by set_cells: {appended}'})
+    judge_events(run, evs, 'whole_column')
+
+
 def gen_colarea(run):
     """COLUMN over areas of several columns: the formula cell holds the first column's number (also as an operand), and the cells beside it
     keep their own content (constants and a formula that reads them)"""
@@ -431,6 +456,7 @@ def check(run):
     gen_address(run)
     gen_colarea(run)
     twin_sheets(run)
+    whole_column_lookups(run)
     trace(run)
     public_path(run)
 
